@@ -150,6 +150,7 @@ Proof.
   destruct (loop s (loop_fuel es0) 1 false (mkCs ivs2 0 0) es0) as [[st es1]|] eqn:El; [|discriminate].
   inversion H; subst r. clear H.
   destruct (loop_inv _ _ _ _ _ _ _ _ El Heq) as (L1 & L2). cbn [cs_ivs] in *.
+  set (es1x := map (nla_ext_deps nla_dep_fix (cs_ivs st)) es1) in *.
   unfold finish in *.
   destruct (validate_vars (cs_ivs st) (cs_vidx st)) as [[ivs1 vidx1] iss1] eqn:Ev.
   destruct (validate_vars_spec s _ _ _ _ _ Ev) as (V1 & V2).
@@ -158,7 +159,7 @@ Proof.
   pose proof (Forall2_evolves _ _ _ V1) as Hev1.
   pose proof (evolves_trans _ _ _ _ L1 Hev1) as Hev.
   destruct (evolves_tkeeps_ok s ivs2 ivs1 Hok Hev) as (Len1 & Hok1 & K1).
-  destruct (fold_left requalify_step (nla_group ivs1 es1) (ivs1, [], [], [])) as [[[ivsF esF] ov] iss2] eqn:Er.
+  destruct (fold_left requalify_step (nla_group ivs1 es1x) (ivs1, [], [], [])) as [[[ivsF esF] ov] iss2] eqn:Er.
   destruct iss2 as [|i2 ir2]; [|discriminate].
   destruct (requalify_fold_keeps _ _ _ _ _ _ _ _ _ Er) as (LenF & KF).
   assert (Hpack : forall ty,
@@ -612,7 +613,7 @@ Proof.
   destruct (validate_vars (cs_ivs st) (cs_vidx st)) as [[ivs1 vidx1] iss1] eqn:Ev.
   destruct iss1 as [|j1 jr1].
   - (* no issue from the variables: nothing else reports an unused variable *)
-    destruct (fold_left requalify_step (nla_group ivs1 es1) (ivs1, [], [], [])) as [[[ivsF esF] ov] iss2] eqn:Er.
+    destruct (fold_left requalify_step (nla_group ivs1 (map (nla_ext_deps nla_dep_fix (cs_ivs st)) es1)) (ivs1, [], [], [])) as [[[ivsF esF] ov] iss2] eqn:Er.
     pose proof (requalify_fold_rules _ _ _ _ _ _ _ _ _ Er (Forall_nil _)) as K.
     destruct iss2 as [|j2 jr2].
     + destruct (model_type voi ivsF esF); subst r; cbn in Hi; destruct Hi.
@@ -750,9 +751,12 @@ Proof.
   unfold check_step at 2. cbn [andb]. apply IH.
 Qed.
 
+Lemma nla_ext_deps_off : forall ivs es, map (nla_ext_deps false ivs) es = es.
+Proof. intros ivs es. induction es as [|e t IH]; cbn; [reflexivity|]. rewrite IH. reflexivity. Qed.
+
 Theorem analyse_x_unfixed : forall s marks, xr_outcome (analyse_x false s marks) = analyse_ext s (local_marks marks).
 Proof.
-  intros s marks. unfold analyse_x, analyse_ext.
+  intros s marks. unfold analyse_x, analyse_xg, analyse_ext. cbn [andb].
   destruct (negb (resolvable s)); [reflexivity|].
   destruct (build s) as [[ivs0 es0]|]; [|reflexivity].
   destruct (check_inits s ivs0 0 s) as [|i0 ir0]; [|reflexivity].
@@ -762,18 +766,38 @@ Proof.
   pose proof (check_fold_unfixed s (vs_voi (analyse_asts s ivs1 es0)) pe (vs_ivs (analyse_asts s ivs1 es0)) []) as Hc.
   destruct (fold_left (check_step false s (vs_voi (analyse_asts s ivs1 es0))) pe (vs_ivs (analyse_asts s ivs1 es0), [])) as [ivs2 xi2] eqn:Ec.
   cbn [fst] in Hc. subst ivs2.
-  destruct (loop s (loop_fuel es0) 1 false (mkCs (vs_ivs (analyse_asts s ivs1 es0)) 0 0) es0) as [[st es1]|]; reflexivity.
+  destruct (loop s (loop_fuel es0) 1 false (mkCs (vs_ivs (analyse_asts s ivs1 es0)) 0 0) es0) as [[st es1]|]; [|reflexivity].
+  cbn [xr_outcome]. rewrite nla_ext_deps_off. reflexivity.
 Qed.
 
 (* without marks both codes are the analysis of C05 *)
+Lemma nla_ext_deps_noext : forall dfx ivs es, Forall (fun v => iv_external v = false) ivs -> map (nla_ext_deps dfx ivs) es = es.
+Proof.
+  intros dfx ivs es H. induction es as [|e t IH]; cbn [map]; [reflexivity|]. rewrite IH. f_equal.
+  unfold nla_ext_deps. destruct (dfx && is_nla e); [|reflexivity].
+  assert (F : filter (fun p => iv_external (geti ivs p)) (ie_unknown e) = []).
+  { induction (ie_unknown e) as [|p r IHr]; cbn; [reflexivity|]. rewrite (noext_geti ivs p H). exact IHr. }
+  rewrite F. cbn [map]. rewrite app_nil_r. destruct e; reflexivity.
+Qed.
+
 Corollary analyse_x_no_marks : forall fixed s, xr_outcome (analyse_x fixed s []) = analyse s.
 Proof.
-  intros fixed s. unfold analyse_x, analyse, analyse_ext.
+  intros fixed s. unfold analyse_x, analyse_xg, analyse, analyse_ext.
   destruct (negb (resolvable s)); [reflexivity|].
-  destruct (build s) as [[ivs0 es0]|]; [|reflexivity].
+  destruct (build s) as [[ivs0 es0]|] eqn:Eb; [|reflexivity].
   destruct (check_inits s ivs0 0 s) as [|i0 ir0]; [|reflexivity]. cbn [fold_left].
-  destruct (vs_issues (analyse_asts s ivs0 es0)) as [|i1 ir1]; [|reflexivity]. cbn [fold_left].
-  destruct (loop s (loop_fuel es0) 1 false (mkCs (vs_ivs (analyse_asts s ivs0 es0)) 0 0) es0) as [[st es1]|]; reflexivity.
+  destruct (vs_issues (analyse_asts s ivs0 es0)) as [|i1 ir1] eqn:Ei; [|reflexivity]. cbn [fold_left].
+  destruct (loop s (loop_fuel es0) 1 false (mkCs (vs_ivs (analyse_asts s ivs0 es0)) 0 0) es0) as [[st es1]|] eqn:El; [|reflexivity].
+  cbn [xr_outcome]. rewrite nla_ext_deps_noext; [reflexivity|].
+  destruct (build_spec _ _ _ Eb) as (B1 & B2 & B3).
+  pose proof (analyse_asts_plain s ivs0 es0 (build_plain _ _ _ Eb)) as HU.
+  assert (Hne : Forall (fun v => iv_external v = false) (vs_ivs (analyse_asts s ivs0 es0))).
+  { eapply Forall_impl; [|exact HU]. intros v (A & _). exact A. }
+  assert (Heq : Forall (eq_inv (vs_ivs (analyse_asts s ivs0 es0))) es0).
+  { destruct (analyse_asts_kept s ivs0 es0) as (L & _).
+    eapply Forall_impl; [|exact B2]. intros e He. eapply eq_ok_eq_inv. rewrite L. exact He. }
+  destruct (loop_inv _ _ _ _ _ _ _ _ El Heq) as (L1 & _). cbn [cs_ivs] in L1.
+  eapply noext_evolves; eassumption.
 Qed.
 
 (* ------------------------------------------------------------------ equations of a result have distinct positions *)
@@ -808,7 +832,7 @@ Qed.
 
 Theorem analysis_pos_nodup : forall fixed s marks r, xr_outcome (analyse_x fixed s marks) = Done r -> NoDup (all_pos r).
 Proof.
-  intros fixed s marks r H. unfold analyse_x in H.
+  intros fixed s marks r H. unfold analyse_x, analyse_xg in H.
   destruct (negb (resolvable s)); [discriminate|].
   destruct (build s) as [[ivs0 es0]|]; [|discriminate].
   destruct (check_inits s ivs0 0 s) as [|i0 ir0]; [|inversion H; subst; constructor].
